@@ -480,6 +480,14 @@ type callAlt struct {
 func (e *Env) helperOf(v ssa.Value) (*ssa.Call, int, bool) {
 	v = ir.Resolve(v)
 	idx := 0
+	if sc, fld, ok := structResultOf(v); ok {
+		// a field of the small struct a classifier hands back (`v := judge(dep); v.blocks`)
+		h := sc.Call.StaticCallee()
+		if h == nil || !e.P.Funcs[h] || h.Blocks == nil || ir.UniqueSite(h) == nil || len(h.Blocks) < 3 {
+			return nil, 0, false
+		}
+		return sc, structIdx + fld, true
+	}
 	if ex, ok := v.(*ssa.Extract); ok {
 		v, idx = ex.Tuple, ex.Index
 	}
@@ -563,11 +571,28 @@ func (e *Env) splitOnCall(c *ssa.Call, lits []ir.NLit) ([]callAlt, bool) {
 				results[i] = ir.Resolve(vs[0])
 			}
 		}
+		// a single struct result: its fields, as built at this return, behind structIdx
+		if len(rt.Results) == 1 {
+			if st, isSt := rt.Results[0].Type().Underlying().(*types.Struct); isSt {
+				if sv := structRetVal(rt); sv != nil {
+					fv := e.structFieldsOf(sv, st)
+					if fv != nil {
+						full := make([]ssa.Value, structIdx+len(fv))
+						copy(full, results)
+						copy(full[structIdx:], fv)
+						results = full
+					}
+				}
+			}
+		}
 		for _, way := range ways {
 			alts := [][]ir.NLit{append(append([]ir.NLit{}, rest...), way...)}
 			feasible := true
 			for k, l := range about {
-				rv := results[aboutIdx[k]]
+				var rv ssa.Value
+				if aboutIdx[k] < len(results) {
+					rv = results[aboutIdx[k]]
+				}
 				if rv == nil {
 					for a := range alts {
 						alts[a] = append(alts[a], l)
@@ -630,6 +655,39 @@ func (e *Env) splitOnCall(c *ssa.Call, lits []ir.NLit) ([]callAlt, bool) {
 // verdictResult: result idx of h is a boolean, or every return gives it a constant.
 func (e *Env) verdictResult(h *ssa.Function, idx int) bool {
 	rs := h.Signature.Results()
+	if idx >= structIdx {
+		// a field of a struct result: a boolean, or a constant at every return
+		if rs.Len() != 1 {
+			return false
+		}
+		st, isSt := rs.At(0).Type().Underlying().(*types.Struct)
+		if !isSt || idx-structIdx >= st.NumFields() {
+			return false
+		}
+		if b, isB := st.Field(idx - structIdx).Type().Underlying().(*types.Basic); isB && b.Kind() == types.Bool {
+			return true
+		}
+		n := 0
+		for _, b := range h.Blocks {
+			rt, isR := b.Instrs[len(b.Instrs)-1].(*ssa.Return)
+			if !isR || len(rt.Results) != 1 || !e.Facts(h).Reachable(b) {
+				continue
+			}
+			sv := structRetVal(rt)
+			if sv == nil {
+				return false
+			}
+			fv := e.structFieldsOf(sv, st)
+			if fv == nil {
+				return false
+			}
+			n++
+			if _, isC := fv[idx-structIdx].(*ssa.Const); !isC && !e.definitelyNonNil(fv[idx-structIdx], 0) {
+				return false
+			}
+		}
+		return n > 0
+	}
 	if idx >= rs.Len() {
 		return false
 	}
@@ -1011,6 +1069,13 @@ func (e *Env) helperOfAny(v ssa.Value) (*ssa.Call, int, bool) {
 	}
 	v = ir.Resolve(v)
 	idx := 0
+	if sc, fld, ok := structResultOf(v); ok {
+		h := sc.Call.StaticCallee()
+		if h == nil || !e.P.Funcs[h] || h.Blocks == nil || len(h.Blocks) < 3 || sc.Parent() == nil || pkgOfFn(sc.Parent()) != pkgOfFn(h) {
+			return nil, 0, false
+		}
+		return sc, structIdx + fld, true
+	}
 	if ex, ok := v.(*ssa.Extract); ok {
 		v, idx = ex.Tuple, ex.Index
 	}
@@ -1402,4 +1467,196 @@ func cycleNeg(lits []ir.NLit, pred func(ssa.Value) bool) bool {
 		}
 	}
 	return false
+}
+
+// structIdx marks a result index that names a field of a single struct result
+// (structIdx + field index) instead of a component of a result tuple.
+const structIdx = 1000
+
+// structResultOf: v is a field of the struct a call returned: Field(call, k), or a
+// read of field k of the local the call's result was stored in.
+func structResultOf(v ssa.Value) (*ssa.Call, int, bool) {
+	switch x := v.(type) {
+	case *ssa.Field:
+		if c, ok := ir.Resolve(x.X).(*ssa.Call); ok && c.Call.StaticCallee() != nil {
+			return c, x.Field, true
+		}
+		if u, ok := ir.Resolve(x.X).(*ssa.UnOp); ok && u.Op == token.MUL {
+			if al, isA := u.X.(*ssa.Alloc); isA {
+				if st := ir.StoresTo(al); len(st) == 1 {
+					if c, isC := ir.Resolve(st[0]).(*ssa.Call); isC && c.Call.StaticCallee() != nil {
+						return c, x.Field, true
+					}
+				}
+			}
+		}
+	case *ssa.UnOp:
+		if x.Op != token.MUL {
+			return nil, 0, false
+		}
+		fa, ok := x.X.(*ssa.FieldAddr)
+		if !ok {
+			return nil, 0, false
+		}
+		al, ok := fa.X.(*ssa.Alloc)
+		if !ok {
+			return nil, 0, false
+		}
+		if _, isSt := al.Type().Underlying().(*types.Pointer).Elem().Underlying().(*types.Struct); !isSt {
+			return nil, 0, false
+		}
+		// the local is only ever assigned the call's result, and no field of it is written
+		for _, ref := range *al.Referrers() {
+			if f2, isFA := ref.(*ssa.FieldAddr); isFA {
+				for _, r2 := range *f2.Referrers() {
+					if st, isS := r2.(*ssa.Store); isS && st.Addr == ssa.Value(f2) {
+						return nil, 0, false
+					}
+				}
+			}
+		}
+		if st := ir.StoresTo(al); len(st) == 1 {
+			if c, isC := ir.Resolve(st[0]).(*ssa.Call); isC && c.Call.StaticCallee() != nil {
+				return c, fa.Field, true
+			}
+		}
+	}
+	return nil, 0, false
+}
+
+// structFieldsOf: the field values of a struct value built in place (a composite
+// literal: a local with constant field stores, missing fields zero), read from a
+// package-level variable that is initialised with such a literal and never
+// reassigned, or the zero constant; nil when the value is put together otherwise.
+func (e *Env) structFieldsOf(v ssa.Value, st *types.Struct) []ssa.Value {
+	out := make([]ssa.Value, st.NumFields())
+	zero := func() {
+		for i := range out {
+			if out[i] == nil {
+				out[i] = zeroConst(st.Field(i).Type())
+			}
+		}
+	}
+	v = ir.Resolve(v)
+	if c, ok := v.(*ssa.Const); ok && c.Value == nil {
+		zero()
+		return out
+	}
+	u, ok := v.(*ssa.UnOp)
+	if !ok || u.Op != token.MUL {
+		return nil
+	}
+	collect := func(base ssa.Value, refs []ssa.Instruction, only *ssa.Function) bool {
+		for _, ref := range refs {
+			switch x := ref.(type) {
+			case *ssa.FieldAddr:
+				for _, r2 := range *x.Referrers() {
+					if sto, isS := r2.(*ssa.Store); isS && sto.Addr == ssa.Value(x) {
+						if only != nil && sto.Parent() != only {
+							return false
+						}
+						if out[x.Field] != nil {
+							return false // assigned twice
+						}
+						out[x.Field] = ir.Resolve(sto.Val)
+					}
+				}
+			case *ssa.Store:
+				if x.Addr == base {
+					return false // the whole value copied in
+				}
+			}
+		}
+		return true
+	}
+	switch b := u.X.(type) {
+	case *ssa.Alloc:
+		if !collect(b, *b.Referrers(), nil) {
+			return nil
+		}
+	case *ssa.Global:
+		if b.Pkg == nil || e.globalReassigned(b) {
+			return nil
+		}
+		init := b.Pkg.Func("init")
+		if init == nil {
+			return nil
+		}
+		var refs []ssa.Instruction
+		for _, f := range e.RepoFuncsSorted() {
+			for _, blk := range f.Blocks {
+				for _, in := range blk.Instrs {
+					if fa, isFA := in.(*ssa.FieldAddr); isFA && fa.X == ssa.Value(b) {
+						refs = append(refs, fa)
+					}
+					if sto, isS := in.(*ssa.Store); isS && sto.Addr == ssa.Value(b) {
+						// a whole-value initialisation from a literal built in init
+						if f != init {
+							return nil
+						}
+						return e.structFieldsOf(sto.Val, st)
+					}
+				}
+			}
+		}
+		if !collect(b, refs, init) {
+			return nil
+		}
+	default:
+		return nil
+	}
+	zero()
+	return out
+}
+
+// zeroConst: the zero value of a type as a constant.
+func zeroConst(t types.Type) *ssa.Const {
+	if b, ok := t.Underlying().(*types.Basic); ok {
+		switch {
+		case b.Info()&types.IsBoolean != 0:
+			return ssa.NewConst(constant.MakeBool(false), t)
+		case b.Info()&types.IsInteger != 0:
+			return ssa.NewConst(constant.MakeInt64(0), t)
+		case b.Info()&types.IsString != 0:
+			return ssa.NewConst(constant.MakeString(""), t)
+		}
+	}
+	return ssa.NewConst(nil, t)
+}
+
+// structRetVal: the struct value a return hands back: a composite literal built in a
+// local (read back whole), or what RetVals finds for a spilled result.
+func structRetVal(rt *ssa.Return) ssa.Value {
+	if u, ok := rt.Results[0].(*ssa.UnOp); ok && u.Op == token.MUL {
+		if al, isA := u.X.(*ssa.Alloc); isA && len(ir.StoresTo(al)) == 0 {
+			return u
+		}
+		if _, isG := u.X.(*ssa.Global); isG {
+			return u
+		}
+	}
+	if vs := RetVals(rt, 0); len(vs) == 1 {
+		return vs[0]
+	}
+	return nil
+}
+
+// funcOfValue: the function a function value stands for: a closure, a named function,
+// or - for a method expression (`(*Node).isPending`) - the method behind the thunk.
+func funcOfValue(v ssa.Value) *ssa.Function {
+	switch x := ir.Resolve(v).(type) {
+	case *ssa.MakeClosure:
+		f, _ := x.Fn.(*ssa.Function)
+		return f
+	case *ssa.Function:
+		if strings.HasSuffix(x.Name(), "$thunk") && len(x.Blocks) == 1 {
+			for _, in := range x.Blocks[0].Instrs {
+				if ci, ok := in.(*ssa.Call); ok && ci.Call.StaticCallee() != nil && len(ci.Call.Args) == len(x.Params) {
+					return ci.Call.StaticCallee()
+				}
+			}
+		}
+		return x
+	}
+	return nil
 }
